@@ -60,11 +60,13 @@ pub struct Scenario {
     /// where the user-supplied pool is handed to the builder: 0 = before the registrations, 1 = after them,
     /// 2 = before them but after a one-thread decoy pool (the later `add_pool` replaces the earlier one)
     pub pool_placement: u8,
+    /// async scripts: build and drive the dispatcher from inside `install` of its own user-supplied pool
+    pub script_in_pool: bool,
 }
 
 impl Scenario {
     pub fn plain(ops: Vec<Op>, mode: Mode, dispatches: u8) -> Scenario {
-        Scenario { ops, mode, dispatches, user_pool: None, default_threads: None, panics: vec![], rendezvous: None, foreign_pool: None, script: None, panic_late: false, pool_placement: 0 }
+        Scenario { ops, mode, dispatches, user_pool: None, default_threads: None, panics: vec![], rendezvous: None, foreign_pool: None, script: None, panic_late: false, pool_placement: 0, script_in_pool: false }
     }
 
     pub fn to_json(&self) -> Value {
@@ -81,6 +83,7 @@ impl Scenario {
             "foreign_pool": self.foreign_pool,
             "panic_late": self.panic_late,
             "pool_placement": self.pool_placement,
+            "script_in_pool": self.script_in_pool,
         })
     }
 
@@ -107,6 +110,7 @@ impl Scenario {
             foreign_pool: v.get("foreign_pool").and_then(|x| x.as_u64()).map(|x| x as usize),
             panic_late: v.get("panic_late").and_then(|x| x.as_bool()).unwrap_or(false),
             pool_placement: v.get("pool_placement").and_then(|x| x.as_u64()).unwrap_or(0) as u8,
+            script_in_pool: v.get("script_in_pool").and_then(|x| x.as_bool()).unwrap_or(false),
         })
     }
 }
@@ -129,6 +133,8 @@ pub struct ExecOut {
     pub pool_lock_ok: bool,
     /// (world values, borrow state, local counters) after each dispatch
     pub after: Vec<(Vec<u64>, Vec<u8>, Vec<u64>)>,
+    /// setup-hook counters (async scripts)
+    pub setups: Vec<u32>,
 }
 
 impl ExecOut {
@@ -146,45 +152,25 @@ fn run_dispatch(d: &mut shred::Dispatcher<'static, 'static>, w: &shred::World, m
     }
 }
 
-/// Run the scenario once (in whatever mode the current OS thread is: inside a
-/// controlled execution or inline).  `twin` = run the sequential twin instead.
-pub fn run_scenario(sc: &Scenario, twin: bool) -> ExecOut {
-    let info = PlanInfo::of(&sc.ops);
-    let ctx = Ctx::new(info.n(), Ctx::identity_map());
-    let mut out = ExecOut::default();
-    out.main_task = if rayon::verif::controlled() { shuttle::current::get_current_task().map(usize::from).unwrap_or(0) as u16 } else { 0 };
-    {
-        let mut b = ctx.beh.lock().unwrap();
-        for (id, at_fetch) in &sc.panics {
-            // async scripts do not number their dispatches: the system panics whenever it runs
-            let d = if sc.script.is_some() { u16::MAX } else { 1 };
-            b[*id] = if *at_fetch {
-                Beh::PanicFetch(d)
-            } else if sc.panic_late {
-                Beh::PanicLate(d)
-            } else {
-                Beh::PanicRun(d)
-            };
-        }
-        if !twin {
-            if let Some((ids, k)) = &sc.rendezvous {
-                for id in ids {
-                    b[*id] = Beh::Rendezvous(*k);
-                }
-            }
-        }
-    }
-    if sc.rendezvous.is_some() && !twin && rayon::verif::controlled() {
-        *ctx.rendezvous.lock().unwrap() = Some(Arc::new(Rendezvous { m: shuttle::sync::Mutex::new((0, 0)), cv: shuttle::sync::Condvar::new() }));
-    }
-    rayon::verif::set_default_threads(sc.default_threads);
-    let pool = sc.user_pool.map(|n| Arc::new(rayon::ThreadPoolBuilder::new().num_threads(n).build().unwrap()));
-    let reg = register_placed(&sc.ops, &ctx, pool, sc.pool_placement);
+pub struct ScriptOut {
+    pub results: Vec<Option<String>>,
+    pub values: Vec<u64>,
+    pub borrow: Vec<u8>,
+    pub main_task: u16,
+    pub build_error: Option<String>,
+}
+
+/// Register, build the async dispatcher and run the script, all on the current task.
+fn run_script(sc: &Scenario, ctx: &Arc<Ctx>, pool: Option<Arc<rayon::ThreadPool>>) -> ScriptOut {
+    let mut out = ScriptOut { results: vec![], values: vec![], borrow: vec![], main_task: if rayon::verif::controlled() { shuttle::current::get_current_task().map(usize::from).unwrap_or(0) as u16 } else { 0 }, build_error: None };
+    let reg = register_placed(&sc.ops, ctx, pool, sc.pool_placement);
     if let Some(c) = reg.calls.iter().find(|c| c.panic.is_some()) {
         out.build_error = Some(format!("builder call {:?} panicked: {}", c.path, c.panic.clone().unwrap()));
         return out;
     }
-    if let (Mode::Async, Some(script), false) = (sc.mode, sc.script.as_ref(), twin) {
+    let script = sc.script.clone().unwrap_or_default();
+    let script = &script;
+    {
         let world = new_world();
         let mut ad = reg.builder.build_async(world);
         let mut script: Vec<char> = script.chars().collect();
@@ -233,6 +219,76 @@ pub fn run_scenario(sc: &Scenario, twin: bool) -> ExecOut {
         let w: &shred::World = ad.world();
         out.borrow = world_borrow_state(w);
         out.values = if out.borrow.iter().all(|b| *b == 0) { world_values(w) } else { vec![] };
+    }
+    out
+}
+
+/// Run the scenario once (in whatever mode the current OS thread is: inside a
+/// controlled execution or inline).  `twin` = run the sequential twin instead.
+pub fn run_scenario(sc: &Scenario, twin: bool) -> ExecOut {
+    let info = PlanInfo::of(&sc.ops);
+    let ctx = Ctx::new(info.n(), Ctx::identity_map());
+    let mut out = ExecOut::default();
+    out.main_task = if rayon::verif::controlled() { shuttle::current::get_current_task().map(usize::from).unwrap_or(0) as u16 } else { 0 };
+    {
+        let mut b = ctx.beh.lock().unwrap();
+        for (id, at_fetch) in &sc.panics {
+            // async scripts do not number their dispatches: the system panics whenever it runs
+            let d = if sc.script.is_some() { u16::MAX } else { 1 };
+            b[*id] = if *at_fetch {
+                Beh::PanicFetch(d)
+            } else if sc.panic_late {
+                Beh::PanicLate(d)
+            } else {
+                Beh::PanicRun(d)
+            };
+        }
+        if !twin {
+            if let Some((ids, k)) = &sc.rendezvous {
+                for id in ids {
+                    b[*id] = Beh::Rendezvous(*k);
+                }
+            }
+        }
+    }
+    if sc.rendezvous.is_some() && !twin && rayon::verif::controlled() {
+        *ctx.rendezvous.lock().unwrap() = Some(Arc::new(Rendezvous { m: shuttle::sync::Mutex::new((0, 0)), cv: shuttle::sync::Condvar::new() }));
+    }
+    rayon::verif::set_default_threads(sc.default_threads);
+    let pool = sc.user_pool.map(|n| Arc::new(rayon::ThreadPoolBuilder::new().num_threads(n).build().unwrap()));
+    if let (Mode::Async, Some(_), false) = (sc.mode, sc.script.as_ref(), twin) {
+        // the whole life of the async dispatcher (registration, build, script) on the calling task, or - `script_in_pool`
+        // - on a worker of the dispatcher's own (user-supplied) pool
+        let so = match (&pool, sc.script_in_pool && rayon::verif::controlled()) {
+            (Some(p), true) => {
+                let (sc2, ctx2, p2) = (sc.clone(), ctx.clone(), pool.clone());
+                p.install(move || run_script(&sc2, &ctx2, p2))
+            }
+            _ => run_script(sc, &ctx, pool.clone()),
+        };
+        if let Some(e) = so.build_error {
+            out.build_error = Some(e);
+            return out;
+        }
+        out.results = so.results;
+        out.values = so.values;
+        out.borrow = so.borrow;
+        out.main_task = so.main_task;
+        out.setups = ctx.setups.lock().unwrap().clone();
+        out.log = ctx.take_log();
+        out.obs = ctx.obs.lock().unwrap().clone();
+        out.local = ctx.local.lock().unwrap().clone();
+        out.runs = ctx.runs.lock().unwrap().clone();
+        out.errors = ctx.errors.lock().unwrap().clone();
+        out.spawn_panics = rayon::verif::spawn_panics();
+        return out;
+    }
+    let reg = register_placed(&sc.ops, &ctx, pool, sc.pool_placement);
+    if let Some(c) = reg.calls.iter().find(|c| c.panic.is_some()) {
+        out.build_error = Some(format!("builder call {:?} panicked: {}", c.path, c.panic.clone().unwrap()));
+        return out;
+    }
+    if false {
     } else if sc.mode == Mode::Async && !twin {
         let world = new_world();
         let mut ad = reg.builder.build_async(world);
@@ -624,10 +680,13 @@ pub fn analyze(m: &Mon, sc: &Scenario, info: &PlanInfo, out: &ExecOut, twin: Opt
                 continue;
             }
             let d = di as u16 + 1;
-            for n in info.nodes.iter().filter(|n| n.kind == Kind::Tl && n.parent.is_none()) {
+            for n in info.nodes.iter().filter(|n| n.kind == Kind::Tl) {
+                // inside batches: once per inner dispatch, i.e. the product of the controllers' repeat counts
+                let exp = expected_runs(info, n.id, 1, 1) as usize;
                 let ran = log.iter().filter(|e| e.dispatch == d && e.kind == Ev::FetchBegin && e.sys as usize == n.id).count();
-                if ran != 1 {
-                    vs.push(v("C12", "tl-not-run-once-by-dispatch", format!("dispatch {} returned normally but thread-local system {} ran {} times in it", d, n.id, ran)));
+                // after a panic inside a batch the batch's remaining inner dispatches of that outer dispatch are abandoned
+                if ran != exp && !(expecting_panic && n.parent.is_some() && di == 0) {
+                    vs.push(v("C12", "tl-not-run-once-by-dispatch", format!("dispatch {} returned normally but thread-local system {} ran {} times in it, expected {}", d, n.id, ran, exp)));
                 }
             }
         }
@@ -825,6 +884,15 @@ pub fn analyze_async(sc: &Scenario, info: &PlanInfo, out: &ExecOut) -> Vec<Viol>
     }
     let script: Vec<char> = sc.script.as_deref().unwrap_or("").chars().chain(std::iter::once('O')).collect();
     let log = &out.log;
+    // C13: every setup() call that returned has reached every system once - also while a dispatch is in flight
+    if sc.panics.is_empty() && !out.setups.is_empty() {
+        let ok_s = log.iter().filter(|e| e.kind == Ev::Script && e.aux != 0 && e.aux != 9 && script.get(e.sys as usize) == Some(&'S')).count() as u32;
+        for n in info.nodes.iter().filter(|n| n.kind != Kind::Batch && !n.is_static) {
+            if out.setups.get(n.id).copied().unwrap_or(ok_s) != ok_s {
+                vs.push(v("C13", "async-setup-count", format!("{} setup() calls returned but system {} was set up {} times", ok_s, n.id, out.setups[n.id])));
+            }
+        }
+    }
     let n = info.n();
     let mut begun = vec![0u32; n];
     let mut ended = vec![0u32; n];
@@ -879,6 +947,8 @@ pub fn analyze_async(sc: &Scenario, info: &PlanInfo, out: &ExecOut) -> Vec<Viol>
                                 let ran = begun[*t] - tl_begun_at_wait[*t];
                                 if ran != 1 {
                                     vs.push(v("C12", "wait-did-not-run-thread-local-once", format!("wait() (call {}) returned after a dispatch but thread-local system {} ran {} times inside it", id, t, ran)));
+                                    // the same fact seen from "every system of a dispatch runs exactly once"
+                                    vs.push(v("C04", "thread-local-not-run-once-per-async-dispatch", format!("dispatch ... wait() (call {}) completed but thread-local system {} ran {} times for it", id, t, ran)));
                                 }
                             }
                         }
@@ -938,7 +1008,8 @@ pub fn analyze_async(sc: &Scenario, info: &PlanInfo, out: &ExecOut) -> Vec<Viol>
                     if !in_wait {
                         vs.push(v("C15", "tl-outside-wait", format!("thread-local system {} ran outside wait()", id)));
                     }
-                    if e.task != out.main_task || e.pool != 0 {
+                    // (a caller that is itself a pool worker - `script_in_pool` - carries its pool id)
+                    if e.task != out.main_task || (e.pool != 0 && !sc.script_in_pool) {
                         vs.push(v("C15", "tl-not-on-caller", format!("thread-local system {} ran in task {} (pool {}), the caller is task {}", id, e.task, e.pool, out.main_task)));
                     }
                     if !open.is_empty() {
@@ -987,13 +1058,13 @@ pub fn analyze_async(sc: &Scenario, info: &PlanInfo, out: &ExecOut) -> Vec<Viol>
 
 fn conflict_only_via_tl(info: &PlanInfo, batch: usize, other: usize) -> bool {
     // would the conflict disappear if thread-local systems inside batches declared nothing?
-    fn eff(info: &PlanInfo, id: usize) -> (u8, u8) {
+    fn eff(info: &PlanInfo, id: usize) -> (u64, u64) {
         let n = &info.nodes[id];
         match n.kind {
             Kind::Tl if n.parent.is_some() => (0, 0),
             Kind::Batch => {
-                let mut r = n.reads.iter().fold(0u8, |m, x| m | (1 << x));
-                let mut w = n.writes.iter().fold(0u8, |m, x| m | (1 << x));
+                let mut r = n.reads.iter().fold(0u64, |m, x| m | (1u64 << x));
+                let mut w = n.writes.iter().fold(0u64, |m, x| m | (1u64 << x));
                 for c in &n.children {
                     let (cr, cw) = eff(info, *c);
                     r |= cr;
